@@ -7,9 +7,13 @@
       over a generated queue hierarchy, with the harness's queue order function
       [h_qord] registered through Session.AddQueueOrderFn;
     - [CAL]: one run of the real allocate action (default plugins, proportion
-      queue order) on a generated cluster: the jobs, and the UIDs of the placed
-      jobs in the order of their first allocation. *)
-From KaiV Require Export Run.Prelude Model.JobOrder Model.JobOrderSpec.
+      queue order) on a generated cluster: the pending jobs, and the UIDs of the
+      placed jobs in the order of their first allocation; the quotas and limits of
+      all queues, the running jobs, for every job the spec.preemptibility it was
+      given and the Preemptibility the snapshot holds, and for every pending job
+      the verdicts of the real Session.IsJobOverQueueCapacityFn and
+      Session.IsNonPreemptibleJobOverQueueQuotaFn when the session opens. *)
+From KaiV Require Export Run.Prelude Model.JobOrder Model.JobOrderSpec Model.QuotaGate Model.QuotaGateSpec.
 Open Scope Z_scope.
 
 Inductive pqop :=
@@ -22,14 +26,20 @@ Inductive joop :=
 | JPush (j : job)
 | JPop.
 
+(** what the pod group said ([po_spec]) and what PodGroupInfo.Preemptibility holds ([po_seen]) *)
+Record pre_obs := { po_uid : Z; po_spec : preemptibility; po_seen : preemptibility }.
+(** the real gates' verdicts for a pending job and all its pending pods at session open *)
+Record gate_obs := { go_uid : Z; go_capacity : verdict; go_np_quota : verdict }.
+
 Inductive case :=
 | CPQ (maxsize : Z) (ops : list pqop) (obs : list (option Z))
 | CJO (qs : list qinfo) (depth : Z) (ops : list joop) (obs : list (option Z))
-| CAL (qs : list qinfo) (depth : Z) (jobs : list job) (order : list Z).
+| CAL (qs : list qinfo) (depth : Z) (jobs : list job) (order : list Z)
+      (quotas : qstate) (running : list job) (pobs : list pre_obs) (gobs : list gate_obs).
 
 Definition set_prio (j : job) (p : Z) : job :=
   {| j_uid := j_uid j; j_queue := j_queue j; j_prio := p; j_subgroups := j_subgroups j;
-     j_ctime := j_ctime j; j_shape := j_shape j |}.
+     j_ctime := j_ctime j; j_shape := j_shape j; j_pre := j_pre j; j_req := j_req j |}.
 
 Definition oz_eqb (a b : option Z) : bool :=
   match a, b with
@@ -96,15 +106,49 @@ Definition per_leaf_agree (qs : list qinfo) (jobs : list job) (model : list job)
              let o := filter (fun u => match job_of jobs u with Some j => j_queue j =? q | None => false end) order in
              list_eqb Z.eqb m o) qs.
 
+Definition pre_eqb (a b : preemptibility) : bool :=
+  match a, b with
+  | PUnset, PUnset | PPreemptible, PPreemptible | PNonPreemptible, PNonPreemptible => true
+  | _, _ => false
+  end.
+
+Definition res_verdict_eqb (r : res verdict) (v : verdict) : bool :=
+  match r with Ok x => verdict_eqb x v | _ => false end.
+
+(** [j_pre] of every job is CalculatePreemptibility of what its pod group said and
+    its priority, and it is what the snapshot holds *)
+Definition pre_agree (jobs : list job) (pobs : list pre_obs) : bool :=
+  forallb (fun j => existsb (fun o => po_uid o =? j_uid j) pobs) jobs
+  && forallb (fun o => match job_of jobs (po_uid o) with
+                       | Some j => pre_eqb (calculate_preemptibility (po_spec o) (j_prio j)) (j_pre j)
+                                   && pre_eqb (po_seen o) (j_pre j)
+                       | None => false
+                       end) pobs.
+
+(** the modelled gates on the usage accounted from the running jobs give the real verdicts *)
+Definition gate_agree (quotas : qstate) (running jobs : list job) (gobs : list gate_obs) : bool :=
+  match account_all is_preemptible_job quotas running with
+  | Ok st =>
+      forallb (fun j => existsb (fun o => go_uid o =? j_uid j) gobs) jobs
+      && forallb (fun o => match job_of jobs (go_uid o) with
+                           | Some j => res_verdict_eqb (job_over_queue_capacity st j) (go_capacity o)
+                                       && res_verdict_eqb (np_job_over_quota st j) (go_np_quota o)
+                           | None => false
+                           end) gobs
+  | _ => false
+  end.
+
 Definition model_agrees (k : case) : bool :=
   match k with
   | CPQ max ops obs => res_eqb (pq_run max [] ops) obs
   | CJO qs depth ops obs => res_eqb (jo_run qs depth jo_empty ops) obs
-  | CAL qs depth jobs order =>
+  | CAL qs depth jobs order quotas running pobs gobs =>
       match al_model_order qs depth jobs order with
       | Ok m => per_leaf_agree qs jobs m order
       | _ => false
       end
+      && pre_agree (jobs ++ running) pobs
+      && gate_agree quotas running jobs gobs
   end.
 
 (** ** the property evaluated on what the real code returned *)
@@ -160,21 +204,39 @@ Fixpoint jo_monitor (qs : list qinfo) (depth : Z) (ls : leaves) (ops : list joop
   | _, _ => false
   end.
 
-(** C16 on the decisions of a real allocate run: among jobs of one leaf queue with
-    the same shape (template, gang size, preemptibility), a job is not placed while
-    one that the comparator chain orders before it is left unplaced *)
+(** identical workloads of one leaf queue ([same_workload], decidable): same queue,
+    same shape (template, gang size), same request, and the same preemptibility -
+    the one the scheduler is supposed to see: what the pod group says, else derived
+    from the priority ([j_pre], checked against CalculatePreemptibility by [pre_agree]) *)
+Definition comparable (a b : job) : bool :=
+  (j_queue a =? j_queue b) && (j_shape a =? j_shape b) && list_eqb Z.eqb (j_req a) (j_req b)
+  && pre_eqb (j_pre a) (j_pre b).
+
+(** C16 on the decisions of a real allocate run: among identical workloads of one
+    leaf queue, a job is not placed while one that the comparator chain orders
+    before it (higher priority, then older) is left unplaced *)
 Definition al_monitor (jobs : list job) (order : list Z) : bool :=
   forallb (fun b =>
              negb (memz (j_uid b) order)
-             || forallb (fun a =>
-                           negb ((j_queue a =? j_queue b) && (j_shape a =? j_shape b) && job_less a b)
-                           || memz (j_uid a) order) jobs) jobs.
+             || forallb (fun a => negb (comparable a b && job_less a b) || memz (j_uid a) order) jobs) jobs.
+
+(** the real gates do not tell identical workloads apart: the verdicts observed at
+    session open are equal on every comparable pair, whatever the priorities *)
+Definition gate_monitor (jobs : list job) (gobs : list gate_obs) : bool :=
+  forallb (fun oa =>
+     forallb (fun ob =>
+        match job_of jobs (go_uid oa), job_of jobs (go_uid ob) with
+        | Some a, Some b =>
+            negb (comparable a b)
+            || (verdict_eqb (go_capacity oa) (go_capacity ob) && verdict_eqb (go_np_quota oa) (go_np_quota ob))
+        | _, _ => true
+        end) gobs) gobs.
 
 Definition monitor_ok (k : case) : bool :=
   match k with
   | CPQ max ops obs => pq_monitor max [] ops obs
   | CJO qs depth ops obs => jo_monitor qs depth [] ops obs
-  | CAL _ _ jobs order => al_monitor jobs order
+  | CAL _ _ jobs order _ _ _ gobs => al_monitor jobs order && gate_monitor jobs gobs
   end.
 
 Definition run_mismatches (cs : list (nat * case)) : list nat := failing (fun k => negb (model_agrees k)) cs.
